@@ -144,7 +144,7 @@ Proof. unfold count_fb. rewrite filter_app, app_length. reflexivity. Qed.
 Lemma count_fb_min_depth d l : min_depth (S d) l -> count_fb d l = 0.
 Proof.
   induction 1 as [|e l He _ IH]; [reflexivity|]. unfold count_fb in *. cbn.
-  destruct e as [| |d' i b|d' i x|d' b|d' i b|d' w|d' i|d' i]; cbn in *; try exact IH.
+  destruct e as [| |d' i b|d' i x|d' b|d' i b|d' i b|d' w|d' i|d' i]; cbn in *; try exact IH.
   destruct (d' =? d) eqn:E; [apply Nat.eqb_eq in E; lia|exact IH].
 Qed.
 
@@ -309,13 +309,13 @@ Proof.
       destruct (chain_spec i hs s1) as (ownc & Hec & Hmc & Hcc & Hgc).
       destruct (chain sub d i hs (fun st' => Cont st') s1) as [s2|s2|s2|s2] eqn:Ech; cbn [is_cont res_st] in *.
       2: { (* handlers were not terminal: go on with the next route on the connection they left *)
-        apply (pass_post_prepend lm (Some i) s s2 _ ([EClear; ERun d i (avail s)] ++ ownc)).
-        - rewrite Hec, Hs1, <- app_assoc. reflexivity.
-        - apply min_depth_app; [md|exact Hmc].
-        - rewrite count_fb_app, Hcc. reflexivity.
-        - intros kk Hk. rewrite proj_app. cbn [proj filter at_level ev_depth]. rewrite Nat.eqb_refl. cbn [app].
-          apply Hrun. apply Hgc. exact Hk.
-        - apply (IH _ (S i) (Some i) (Some i) (setst stt i SYes) nm s2 Hrs' Hlen').
+        apply (pass_post_prepend lm (Some i) s (emit (ENext d i (avail s2)) s2) _ (([EClear; ERun d i (avail s)] ++ ownc) ++ [ENext d i (avail s2)])).
+        - rewrite evs_emit, Hec, Hs1, <- !app_assoc. reflexivity.
+        - apply min_depth_app; [apply min_depth_app; [md|exact Hmc]|md].
+        - rewrite !count_fb_app, Hcc. reflexivity.
+        - intros kk Hk. rewrite !proj_app. cbn [proj filter at_level ev_depth]. rewrite !Nat.eqb_refl. cbn [app]. rewrite <- app_assoc.
+          apply Hrun. apply Hgc. cbn [app]. apply g_next. exact Hk.
+        - apply (IH _ (S i) (Some i) (Some i) (setst stt i SYes) nm (emit (ENext d i (avail s2)) s2) Hrs' Hlen').
           + intros _ j mssj Hl Hj _. cbn in Hl. apply Nat.ltb_lt in Hl. lia.
           + intros _ j mssj Hl Hj _ _. cbn in Hl, Hj. apply Nat.ltb_lt in Hl. apply Nat.leb_le in Hj. lia. }
       all: cbn [pass_post res_st]; exists ([EClear; ERun d i (avail s)] ++ ownc); rewrite Hec, Hs1, <- app_assoc;
@@ -506,6 +506,7 @@ Proof.
   - destruct (IHgood b0 Hin) as [[l' ->] HH2]. split; [exists (ERun d j b :: l'); reflexivity|].
     cbn [last_run fold_left]. rewrite Nat.eqb_refl. exact HH2.
   - destruct (IHgood b0 Hin) as [[l' ->] HH2]. split; [exists (ERead d i x :: l'); reflexivity|exact HH2].
+  - destruct (IHgood b0 Hin) as [[l' ->] HH2]. split; [exists (ENext d i b :: l'); reflexivity|exact HH2].
   - inversion Hin; subst. split; [exists []; reflexivity|]. cbn. assumption.
 Qed.
 
@@ -516,6 +517,7 @@ Proof.
   - destruct (IHgood w0 Hin) as [[l' ->] HH2]. split; [exists (ESkip d i b :: l'); reflexivity|exact HH2].
   - destruct (IHgood w0 Hin) as [[l' ->] HH2]. split; [exists (ERun d j b :: l'); reflexivity|exact HH2].
   - destruct (IHgood w0 Hin) as [[l' ->] HH2]. split; [exists (ERead d i x :: l'); reflexivity|exact HH2].
+  - destruct (IHgood w0 Hin) as [[l' ->] HH2]. split; [exists (ENext d i b :: l'); reflexivity|exact HH2].
   - inversion Hin; subst. split; [exists []; reflexivity|reflexivity].
 Qed.
 End Good.
@@ -540,11 +542,181 @@ Proof.
     destruct (depth =? d) eqn:E; cbn [last_run fold_left]; rewrite ?E; apply IH.
 Qed.
 
+(* ------------------------------------------------------------ how an invocation moves between its routes *)
+Lemma is_prefix_refl (b : list byte) : is_prefix b b.
+Proof. exists []. rewrite app_nil_r. reflexivity. Qed.
+Lemma is_prefix_app (p b x : list byte) : is_prefix p b -> is_prefix p (b ++ x).
+Proof. intros [q ->]. exists (q ++ x). rewrite app_assoc. reflexivity. Qed.
+
+Section FlowLevel.
+Variable sub : nat -> list route -> Z -> (st -> res) -> st -> res.
+Hypothesis sub_tail : tail_ok sub.
+Hypothesis sub_ext : ext_ok sub.
+Variable d : nat.
+Notation flow := (flow d).
+
+Lemma lto_of_nleo i o : leo i o = false -> lto o i = true.
+Proof. destruct o as [j|]; cbn; [|reflexivity]. intro H. apply Nat.leb_gt in H. apply Nat.ltb_lt. exact H. Qed.
+
+Lemma chain_flow idx hs : forall s,
+  exists own, evs (res_st (chain sub d idx hs (fun s' => Cont s') s)) = evs s ++ own /\
+    (if is_cont (chain sub d idx hs (fun s' => Cont s') s)
+     then forall kk, flow (MIn idx) kk -> flow (MIn idx) (proj d own ++ kk)
+     else flow (MIn idx) (proj d own)).
+Proof.
+  induction hs as [|h hs IH]; intro s; cbn [Router.chain].
+  - exists []. rewrite app_nil_r. cbn. auto.
+  - destruct h.
+    + exists []. rewrite app_nil_r. cbn. split; [reflexivity|constructor].
+    + destruct (read_full_st k s) as [[dta|] s'] eqn:ER; apply read_full_st_evs in ER.
+      * destruct (IH (emit (ERead d idx dta) s')) as (own & He & Hg).
+        exists (ERead d idx dta :: own). rewrite He, evs_emit, ER, <- app_assoc. split; [reflexivity|].
+        cbn [proj filter at_level ev_depth]. rewrite Nat.eqb_refl.
+        destruct (is_cont _); [intros kk Hk; cbn [app]; apply f_read; apply Hg; exact Hk|apply f_read; exact Hg].
+      * exists [EHErr d idx]. cbn [res_st is_cont]. rewrite evs_emit, ER. split; [reflexivity|].
+        cbn [proj filter at_level ev_depth]. rewrite Nat.eqb_refl. apply f_herr.
+    + exists [EHErr d idx]. cbn [res_st is_cont]. rewrite evs_emit. split; [reflexivity|].
+      cbn [proj filter at_level ev_depth]. rewrite Nat.eqb_refl. apply f_herr.
+    + exact (IH _).
+    + rewrite (sub_tail (S d) rs timeout). destruct (sub_ext (S d) rs timeout s) as (own1 & He1 & Hm1).
+      destruct (sub (S d) rs timeout (fun s' => Cont s') s) as [s1|s1|s1|s1] eqn:ES; cbn [bind]; cbn [res_st] in He1.
+      2: { destruct (IH s1) as (own & He & Hg). exists (own1 ++ own). rewrite He, He1, <- app_assoc. split; [reflexivity|].
+           rewrite proj_app, (proj_min_depth _ _ Hm1). exact Hg. }
+      all: exists own1; cbn [res_st is_cont]; split; [exact He1|]; rewrite (proj_min_depth _ _ Hm1); constructor.
+Qed.
+
+Definition pass_flow_post (lm : option nat) (p : list byte) (s : st) (pr : passres net) : Prop :=
+  match pr with
+  | PFinal r => exists own, evs (res_st r) = evs s ++ own /\ flow (MOut lm p) (proj d own)
+  | PState lm' _ _ s' => exists own p', evs s' = evs s ++ own /\ is_prefix p' (avail s') /\
+                           (forall kk, flow (MOut lm' p') kk -> flow (MOut lm p) (proj d own ++ kk))
+  end.
+
+Lemma pass_flow_prepend lm p lm1 p1 s s1 pr pre1 :
+  evs s1 = evs s ++ pre1 ->
+  (forall kk, flow (MOut lm1 p1) kk -> flow (MOut lm p) (proj d pre1 ++ kk)) ->
+  pass_flow_post lm1 p1 s1 pr -> pass_flow_post lm p s pr.
+Proof.
+  intros He Hg. destruct pr as [r|lm' lnm' stt' s']; cbn [pass_flow_post].
+  - intros (own & He' & Hg'). exists (pre1 ++ own). rewrite He', He, <- app_assoc. split; [reflexivity|].
+    rewrite proj_app. apply Hg. exact Hg'.
+  - intros (own & p' & He' & Hp & Hg'). exists (pre1 ++ own), p'. rewrite He', He, <- app_assoc. split; [reflexivity|]. split; [exact Hp|].
+    intros kk Hk. rewrite proj_app, <- app_assoc. apply Hg. apply Hg'. exact Hk.
+Qed.
+
+Lemma pass_flow : forall rest i lm lnm stt nm s p, is_prefix p (avail s) ->
+  pass_flow_post lm p s (pass sub d i rest lm lnm stt nm s).
+Proof.
+  induction rest as [|[mss hs] rest IH]; intros i lm lnm stt nm s p Hp; cbn [Router.pass].
+  - exists [], p. rewrite app_nil_r. auto.
+  - destruct (leo i lm) eqn:Elm; [apply IH; exact Hp|]. apply lto_of_nleo in Elm.
+    destruct (is_no (stt i) && leo i lnm).
+    { apply (pass_flow_prepend lm p lm p s (emit (ESkip d i (avail s)) s) _ [ESkip d i (avail s)]); [apply evs_emit| |apply IH; exact Hp].
+      intros kk Hk. cbn [proj filter at_level ev_depth]. rewrite Nat.eqb_refl. cbn [app]. apply f_skip; assumption. }
+    destruct (anymatch mss (avail s)).
+    + set (s1 := emit (ERun d i (avail s)) (clear s)).
+      assert (Hs1 : evs s1 = evs s ++ [EClear; ERun d i (avail s)]) by (unfold s1; rewrite evs_emit, evs_clear, <- app_assoc; reflexivity).
+      destruct (chain_flow i hs s1) as (ownc & Hec & Hgc).
+      destruct (chain sub d i hs (fun st' => Cont st') s1) as [s2|s2|s2|s2] eqn:Ech; cbn [is_cont res_st] in *.
+      2: { apply (pass_flow_prepend lm p (Some i) (avail s2) s (emit (ENext d i (avail s2)) s2) _ (([EClear; ERun d i (avail s)] ++ ownc) ++ [ENext d i (avail s2)])).
+           - rewrite evs_emit, Hec, Hs1, <- !app_assoc. reflexivity.
+           - intros kk Hk. rewrite !proj_app. cbn [proj filter at_level ev_depth]. rewrite !Nat.eqb_refl. cbn [app]. rewrite <- app_assoc.
+             apply f_run; [exact Elm|exact Hp|]. apply Hgc. cbn [app]. apply f_next. exact Hk.
+           - apply IH. apply is_prefix_refl. }
+      all: cbn [pass_flow_post res_st]; exists ([EClear; ERun d i (avail s)] ++ ownc); rewrite Hec, Hs1, <- app_assoc;
+        (split; [reflexivity|]); rewrite proj_app; cbn [proj filter at_level ev_depth]; rewrite Nat.eqb_refl; cbn [app];
+        apply f_run; [exact Elm|exact Hp|exact Hgc].
+    + apply IH; exact Hp.
+    + destruct nm; [apply IH; exact Hp|]. exists [], p. rewrite app_nil_r. auto.
+    + cbn [pass_flow_post res_st]. exists [EDrop d DMatchErr]. rewrite evs_emit. split; [reflexivity|].
+      cbn [proj filter at_level ev_depth]. rewrite Nat.eqb_refl. apply f_drop.
+    + cbn [pass_flow_post res_st]. exists [EPanic d i]. rewrite evs_emit. split; [reflexivity|].
+      cbn [proj filter at_level ev_depth]. rewrite Nat.eqb_refl. apply f_panic.
+Qed.
+
+Lemma loop_flow rs dl g : forall lm lnm stt nm s p, is_prefix p (avail s) ->
+  exists own, evs (res_st (loop sub d rs dl (fun s' => Cont s') g lm lnm stt nm s)) = evs s ++ own /\ flow (MOut lm p) (proj d own).
+Proof.
+  induction g as [|g IH]; intros lm lnm stt nm s p Hp; cbn [Router.loop].
+  { exists []. rewrite app_nil_r. split; [reflexivity|constructor]. }
+  destruct (if nm then prefetch (arm dl s) else inl (arm dl s)) as [s'|[w s']] eqn:Epf.
+  2: { destruct nm; [|discriminate]. apply prefetch_inr in Epf. destruct Epf as (He & _ & _).
+       exists [EArm; EDrop d w]. cbn [res_st]. rewrite evs_emit, He, evs_arm, <- app_assoc. split; [reflexivity|].
+       cbn [proj filter at_level ev_depth]. rewrite Nat.eqb_refl. apply f_drop. }
+  assert (Hs' : evs s' = evs s ++ [EArm] /\ is_prefix p (avail s')).
+  { destruct nm.
+    - apply prefetch_inl in Epf. destruct Epf as (He & _ & dta & Hd). rewrite He, evs_arm, Hd. split; [reflexivity|]. apply is_prefix_app. exact Hp.
+    - inversion Epf; subst s'. rewrite evs_arm. auto. }
+  destruct Hs' as (Hes' & Hp').
+  pose proof (pass_flow rs 0 lm lnm stt nm s' p Hp') as HP.
+  destruct (pass sub d 0 rs lm lnm stt nm s') as [r|lm' lnm' stt' s'']; cbn [pass_flow_post] in HP.
+  { destruct HP as (own & He & Hg). exists ([EArm] ++ own). rewrite He, Hes', <- app_assoc. split; [reflexivity|]. rewrite proj_app. exact Hg. }
+  destruct HP as (own & p' & He & Hpp & Hg).
+  destruct (match lm' with Some j => S j =? length rs | None => length rs =? 0 end).
+  { set (s3 := if last_exit_clears && match lm' with None => true | Some _ => false end then clear s'' else s'').
+    assert (Hs3 : exists c, evs s3 = evs s'' ++ c /\ proj d c = [] /\ avail s3 = avail s'').
+    { unfold s3. destruct (last_exit_clears && _); [exists [EClear]; rewrite evs_clear; auto|exists []; rewrite app_nil_r; auto]. }
+    destruct Hs3 as (c & Hec & Hpc & Hac).
+    exists ([EArm] ++ own ++ c ++ [EFallback d (avail s3)]). cbn [res_st]. rewrite evs_emit, Hec, He, Hes', <- !app_assoc. split; [reflexivity|].
+    rewrite !proj_app, Hpc. cbn [proj filter at_level ev_depth app]. rewrite Nat.eqb_refl. apply Hg. apply f_fb. rewrite Hac. exact Hpp. }
+  destruct (undecided (length rs) lm' stt').
+  { destruct (IH lm' lnm' stt' true s'' p' Hpp) as (own2 & He2 & Hg2).
+    exists ([EArm] ++ own ++ own2). rewrite He2, He, Hes', <- !app_assoc. split; [reflexivity|].
+    rewrite !proj_app. cbn [proj filter at_level ev_depth app]. apply Hg. exact Hg2. }
+  exists ([EArm] ++ own ++ [EClear; EFallback d (avail (clear s''))]). cbn [res_st]. rewrite evs_emit, evs_clear, He, Hes', <- !app_assoc. split; [reflexivity|].
+  rewrite !proj_app. cbn [proj filter at_level ev_depth app]. rewrite Nat.eqb_refl. apply Hg. apply f_fb. exact Hpp.
+Qed.
+End FlowLevel.
+
+Lemma compile_flow fuel d rs t s :
+  exists own, evs (res_st (compile fuel d rs t (fun s' => Cont s') s)) = evs s ++ own /\ flow d (MOut None (avail s)) (proj d own).
+Proof.
+  destruct fuel as [|f]; cbn [Router.compile].
+  - exists []. rewrite app_nil_r. split; [reflexivity|constructor].
+  - apply (loop_flow (compile f) (compile_tail f) (compile_ext f)). apply is_prefix_refl.
+Qed.
+
+(* consequences of [flow] *)
+Section FlowFacts.
+Variable d : nat.
+Notation flow := (flow d).
+
+Lemma flow_after_next pre : forall m i b post, flow m (pre ++ ENext d i b :: post) -> flow (MOut (Some i) b) post.
+Proof.
+  induction pre as [|e pre IH]; intros m i b post H; cbn [app] in H.
+  - inversion H; subst. assumption.
+  - inversion H; subst; try (eapply IH; eassumption); destruct pre; discriminate.
+Qed.
+
+Lemma flow_after_run pre : forall m i b post, flow m (pre ++ ERun d i b :: post) -> flow (MIn i) post.
+Proof.
+  induction pre as [|e pre IH]; intros m i b post H; cbn [app] in H.
+  - inversion H; subst. assumption.
+  - inversion H; subst; try (eapply IH; eassumption); destruct pre; discriminate.
+Qed.
+
+Lemma flow_out_head i p e l : flow (MOut (Some i) p) (e :: l) -> next_ok d i p e.
+Proof.
+  intro H. inversion H; subst; cbn; auto.
+  - match goal with Hl : lto (Some i) _ = true |- _ => cbn in Hl; apply Nat.ltb_lt in Hl end. auto.
+  - match goal with Hl : lto (Some i) _ = true |- _ => cbn in Hl; apply Nat.ltb_lt in Hl end. auto.
+Qed.
+
+Lemma flow_in_chain m l : flow m l -> forall i, m = MIn i -> (forall b, ~ In (ENext d i b) l) -> Forall (in_chain_ev d i) l.
+Proof.
+  induction 1; intros i0 Hm Hn; try discriminate; inversion Hm; subst.
+  - constructor.
+  - constructor; [cbn; auto|]. apply IHflow; [reflexivity|]. intros b Hin. apply (Hn b). right. exact Hin.
+  - constructor; [cbn; auto|constructor].
+  - exfalso. apply (Hn b). left. reflexivity.
+Qed.
+End FlowFacts.
+
 (* ------------------------------------------------------------ the matching buffer stays bounded (C05) *)
 Definition BUFB : nat := MAXB - 1 + CHUNK.
 Definition buf_ok (s : st) : Prop := off s + length (avail s) <= BUFB.
 Definition ev_buf_ok (e : ev) : Prop :=
-  match e with ERun _ _ b | EFallback _ b | ESkip _ _ b => length b <= BUFB | _ => True end.
+  match e with ERun _ _ b | EFallback _ b | ESkip _ _ b | ENext _ _ b => length b <= BUFB | _ => True end.
 
 Section Buffer.
 Hypothesis maxb_pos : 1 <= MAXB.
@@ -626,7 +798,9 @@ Proof.
       assert (Hf1 : Forall ev_buf_ok [EClear; ERun d i (avail s)]) by (constructor; [exact I|constructor; [apply buf_ok_avail; exact Hok|constructor]]).
       destruct (chain_buf i hs s1 Hok) as (ownc & Hec & Hfc & Hbc).
       destruct (chain sub d i hs (fun st' => Cont st') s1) as [s2|s2|s2|s2] eqn:Ech; cbn [res_st] in Hec, Hbc.
-      2: { apply (pass_buf_prepend s s2 _ ([EClear; ERun d i (avail s)] ++ ownc)); [rewrite Hec, Hs1, <- app_assoc; reflexivity|apply Forall_app; auto|apply IH; exact Hbc]. }
+      2: { apply (pass_buf_prepend s (emit (ENext d i (avail s2)) s2) _ (([EClear; ERun d i (avail s)] ++ ownc) ++ [ENext d i (avail s2)]));
+             [rewrite evs_emit, Hec, Hs1, <- !app_assoc; reflexivity| |apply IH; exact Hbc].
+           apply Forall_app; split; [apply Forall_app; auto|]. constructor; [apply buf_ok_avail; exact Hbc|constructor]. }
       all: cbn [pass_buf_post res_st]; exists ([EClear; ERun d i (avail s)] ++ ownc); rewrite Hec, Hs1, <- app_assoc; repeat split; auto; apply Forall_app; auto.
     + apply IH; exact Hok.
     + destruct nm; [apply IH; exact Hok|]. exists []. rewrite app_nil_r. auto.
@@ -766,17 +940,23 @@ Proof.
       { cbn. split; [discriminate|]. split; [reflexivity|exact Hhc]. }
       destruct (chain sub d i hs (fun st' => Cont st') s1) as [s2|s2|s2|s2] eqn:Ech; cbn [res_st is_cont] in *.
       2: { destruct (Hcc eq_refl) as [Hac Hnc].
-           specialize (IH (S i) (Some i) (Some i) (setst stt i SYes) nm s2 false).
-           destruct (pass sub d (S i) rest (Some i) (Some i) (setst stt i SYes) nm s2) as [r|lm' lnm' stt' s']; cbn [pass_w_post] in *.
-           - destruct IH as (own & He & Hh & Hd). exists (([EClear; ERun d i (avail s)] ++ ownc) ++ own).
-             split; [rewrite He, Hec, Hs1, <- !app_assoc; reflexivity|].
-             split; [apply hu_app; [exact Hhead|cbn; rewrite Hac; exact Hh]|].
-             apply drop_last_app; [|exact Hd]. apply nodrops_app; [nd|exact Hnc].
-           - destruct IH as (own & He & Hh & Hn & Ha). exists (([EClear; ERun d i (avail s)] ++ ownc) ++ own).
-             split; [rewrite He, Hec, Hs1, <- !app_assoc; reflexivity|].
-             split; [apply hu_app; [exact Hhead|cbn; rewrite Hac; exact Hh]|].
-             split; [apply nodrops_app; [apply nodrops_app; [nd|exact Hnc]|exact Hn]|].
-             left. rewrite !armed_after_app. cbn [armed_after]. rewrite Hac. destruct Ha as [Ha|[_ Ha]]; exact Ha. }
+           specialize (IH (S i) (Some i) (Some i) (setst stt i SYes) nm (emit (ENext d i (avail s2)) s2) false).
+           assert (Hhead2 : hu a (([EClear; ERun d i (avail s)] ++ ownc) ++ [ENext d i (avail s2)])).
+           { apply hu_app; [exact Hhead|]. cbn. split; [discriminate|exact I]. }
+           assert (Hac2 : armed_after a (([EClear; ERun d i (avail s)] ++ ownc) ++ [ENext d i (avail s2)]) = false).
+           { rewrite !armed_after_app. cbn [armed_after]. exact Hac. }
+           assert (Hnc2 : nodrops (([EClear; ERun d i (avail s)] ++ ownc) ++ [ENext d i (avail s2)])).
+           { apply nodrops_app; [apply nodrops_app; [nd|exact Hnc]|nd]. }
+           destruct (pass sub d (S i) rest (Some i) (Some i) (setst stt i SYes) nm (emit (ENext d i (avail s2)) s2)) as [r|lm' lnm' stt' s']; cbn [pass_w_post] in *.
+           - destruct IH as (own & He & Hh & Hd). exists ((([EClear; ERun d i (avail s)] ++ ownc) ++ [ENext d i (avail s2)]) ++ own).
+             split; [rewrite He, evs_emit, Hec, Hs1, <- !app_assoc; reflexivity|].
+             split; [apply hu_app; [exact Hhead2|rewrite Hac2; exact Hh]|].
+             apply drop_last_app; [exact Hnc2|exact Hd].
+           - destruct IH as (own & He & Hh & Hn & Ha). exists ((([EClear; ERun d i (avail s)] ++ ownc) ++ [ENext d i (avail s2)]) ++ own).
+             split; [rewrite He, evs_emit, Hec, Hs1, <- !app_assoc; reflexivity|].
+             split; [apply hu_app; [exact Hhead2|rewrite Hac2; exact Hh]|].
+             split; [apply nodrops_app; [exact Hnc2|exact Hn]|].
+             left. rewrite armed_after_app, Hac2. destruct Ha as [Ha|[_ Ha]]; exact Ha. }
       all: cbn [pass_w_post res_st]; exists ([EClear; ERun d i (avail s)] ++ ownc); rewrite Hec, Hs1, <- app_assoc;
         (split; [reflexivity|]); (split; [exact Hhead|]); cbn; (split; [discriminate|]); (split; [discriminate|exact Hdc]).
     + apply IH.
@@ -925,6 +1105,47 @@ Proof.
   rewrite count_fb_proj in H0. split; [|split; [exact H0|exact Hl]].
   rewrite H0 in Hc. destruct (is_cont r); [discriminate|reflexivity].
 Qed.
+Lemma own_flow : flow d (MOut None (avail s)) (proj d own).
+Proof.
+  destruct (compile_flow fuel d rs t s) as (o & He & Hf).
+  assert (own = o) as ->; [|exact Hf]. unfold own, own_evs, r. rewrite He, skipn_app, skipn_all, Nat.sub_diag. reflexivity.
+Qed.
+
+(* after a route's handlers handed the connection on (they were not terminal), the next thing the invocation
+   does at its depth concerns a LATER route (run, or cached skip), or is the fallback, and sees the bytes the
+   handlers left, extended by what was prefetched since; or the connection is dropped *)
+Lemma c02_nonterminal_continues_trace pre i b2 post : own = pre ++ ENext d i b2 :: post ->
+  match proj d post with [] => True | e :: _ => next_ok d i b2 e end.
+Proof.
+  intro Ho. pose proof own_flow as Hf. rewrite Ho, proj_split in Hf by (cbn; apply Nat.eqb_refl).
+  apply flow_after_next in Hf. destruct (proj d post) as [|e l]; [exact I|]. eapply flow_out_head. exact Hf.
+Qed.
+
+Lemma last_in_tail {A} (pre : list A) e post own' x : pre ++ e :: post = own' ++ [x] -> e <> x -> In x post.
+Proof.
+  intros H Hne. destruct post as [|z post0].
+  - apply app_inj_tail in H. destruct H as [_ H]. contradiction.
+  - destruct (@exists_last A (z :: post0)) as (post' & y & Hy); [discriminate|]. rewrite Hy in *.
+    rewrite app_comm_cons, app_assoc in H. apply app_inj_tail in H. destruct H as [_ ->]. apply in_or_app. right. left. reflexivity.
+Qed.
+
+(* after a route whose handlers did not hand the connection on (a terminal handler, a failing handler, or
+   something below them that ended the connection) nothing else runs: every later event of the invocation at
+   its depth is a read or an error of that very route, and the connection is not handed on *)
+Lemma c02_terminal_stops_trace pre i b post : own = pre ++ ERun d i b :: post ->
+  (forall b2, ~ In (ENext d i b2) post) ->
+  Forall (in_chain_ev d i) (proj d post) /\ is_cont r = false.
+Proof.
+  intros Ho Hn. pose proof own_flow as Hf. rewrite Ho, proj_split in Hf by (cbn; apply Nat.eqb_refl).
+  apply flow_after_run in Hf.
+  assert (HF : Forall (in_chain_ev d i) (proj d post)).
+  { eapply flow_in_chain; [exact Hf|reflexivity|]. intros b2 Hin. apply (Hn b2). apply filter_In in Hin. apply Hin. }
+  split; [exact HF|]. destruct (is_cont r) eqn:E; [|reflexivity]. exfalso.
+  destruct (c02_fallback_is_last E) as (own' & Hl). fold own in Hl. rewrite Ho in Hl.
+  apply last_in_tail in Hl; [|discriminate].
+  rewrite Forall_forall in HF. apply (HF (EFallback d (avail (res_st r)))).
+  apply in_proj; [cbn; apply Nat.eqb_refl|exact Hl].
+Qed.
 End Top.
 
 Lemma own_evs_eq (s : st) (r : res) own : evs (res_st r) = evs s ++ own -> own_evs s r = own.
@@ -994,7 +1215,8 @@ Lemma c02_nonterminal_continues sub d i mss hs rest lm lnm stt nm s s2 :
   leo i lm = false -> is_no (stt i) && leo i lnm = false ->
   anymatch mss (avail s) = Yes ->
   chain sub d i hs (fun st' => Cont st') (emit (ERun d i (avail s)) (clear s)) = Cont s2 ->
-  pass sub d i (Route mss hs :: rest) lm lnm stt nm s = pass sub d (S i) rest (Some i) (Some i) (setst stt i SYes) nm s2.
+  pass sub d i (Route mss hs :: rest) lm lnm stt nm s
+  = pass sub d (S i) rest (Some i) (Some i) (setst stt i SYes) nm (emit (ENext d i (avail s2)) s2).
 Proof. intros H1 H2 H3 H4. cbn [Router.pass]. rewrite H1, H2, H3, H4. reflexivity. Qed.
 
 (* after a terminal route (or a handler error) nothing else happens: the pass, the loop and the
